@@ -54,8 +54,9 @@ class Ctx:
         self.replays.append({"cases": n, "profile": profile, "elem": elem, "cap": cap, "failed_cases": len(fails),
                              "label": label or os.path.basename(cases_path), "wall_s": round(time.time() - t0, 1)})
         log("[replay] %s %s/%s/cap%d: %d cases, %d failing" % (label or os.path.basename(cases_path), profile, elem, cap, n, len(fails)))
+        cases = core.read_cases(cases_path, set(fr["case"] for fr in fails)) if fails else {}
         for fr in fails:
-            case = core.read_case(cases_path, fr["case"])
+            case = cases[fr["case"]]
             for fl in fr["fails"]:
                 props, sig = attribute(case, fl)
                 rec = {"case": case, "fail": fl, "profile": profile, "elem": elem, "cap": cap,
